@@ -7,6 +7,7 @@ import (
 	"sort"
 	"strconv"
 	"strings"
+	"sync/atomic"
 	"time"
 
 	"verifharness/core"
@@ -206,6 +207,8 @@ func setOf(l []string) map[string]bool {
 	return m
 }
 
+var whereSpelling atomic.Int64
+
 // buildFence fills args/sig/plan.
 func buildFence(name string, kind int, key string, sh *shape, detect []string, accept []string, match string, where bool) *fence {
 	f := &fence{name: name, kind: kind, sh: sh, detect: setOf(detect), dname: detectName(detect), accept: setOf(accept), match: match, where: where}
@@ -218,7 +221,13 @@ func buildFence(name string, kind int, key string, sh *shape, detect []string, a
 		a = append(a, "MATCH", match)
 	}
 	if where {
-		a = append(a, "WHERE", "speed", "10", "20")
+		// the same filter in its two spellings, alternating: as a WHERE range and as a
+		// script over the call's ARGV
+		if whereSpelling.Add(1)%2 == 0 {
+			a = append(a, "WHEREEVAL", "return FIELDS.speed ~= nil and FIELDS.speed >= tonumber(ARGV[1]) and FIELDS.speed <= tonumber(ARGV[2])", "2", "10", "20")
+		} else {
+			a = append(a, "WHERE", "speed", "10", "20")
+		}
 	}
 	a = append(a, "FENCE")
 	if detect != nil {
